@@ -365,7 +365,9 @@ def register_pandas():
     def normalize_extension_array(arr):
         import numpy as np
 
-        return normalize_token(np.asarray(arr))
+        # the values alone do not identify the array: e.g. all-missing Int64
+        # and Float64 arrays both convert to an object array of pd.NA
+        return normalize_token(arr.dtype), normalize_token(np.asarray(arr))
 
     # Dtypes
     @normalize_token.register(pd.api.types.CategoricalDtype)
